@@ -226,6 +226,9 @@ func TestVerif_C09(t *testing.T) {
 				c09Enumerate(t, c09Alphabet3, 6, true)
 			}
 			if vfThorough() && !t.Failed() {
+				c09Enumerate(t, c09Alphabet, 7, false)
+			}
+			if vfThorough() && !t.Failed() {
 				c09Enumerate(t, c09Alphabet, 8, true)
 			}
 			if vfThorough() && !t.Failed() {
@@ -238,6 +241,6 @@ func TestVerif_C09(t *testing.T) {
 		return
 	}
 	if vfOnlySub("mut") {
-		vfRun(t, vfSub[c09Case]{Prop: "C09", Name: "mut", Checks: vfN(150000, 6000000), Gen: c09GenMutant, Check: c09Check})
+		vfRun(t, vfSub[c09Case]{Prop: "C09", Name: "mut", Checks: vfN(150000, 16000000), Gen: c09GenMutant, Check: c09Check})
 	}
 }
